@@ -16,6 +16,7 @@ from ..core import Outcome, Stream
 
 LEVEL = "exploration"
 RULE = (
+    "bitwise comparison for backend eager; 64 ulp x conditioning for aot_eager (AOTAutograd re-rounds decomposed fused ops). "
     "case = (backend eager | aot_eager, shape mode static | dynamic | auto, optimizer configuration covering weight-decay modes, filtering on/off, beta3, bias "
     "correction, every grafting type or none, momentum / Nesterov, Shampoo and SOAP, 1-3 parameter shapes, history of 4-8 steps crossing start_preconditioning_step "
     "with refresh and non-refresh steps, presence-mask changes and lr / weight-decay edits). Non-trivial = dynamo compiled >= 1 frame and the history contains a "
@@ -63,6 +64,21 @@ def oracle(case: dict) -> Outcome:
     prev = None
     crossed = False
     eff = A.eff[0]
+    amp = 0.0
+    tol = 0.0
+
+    def same(x: torch.Tensor, y: torch.Tensor) -> bool:
+        """backend "eager" (Dynamo only): bitwise.  "aot_eager": AOTAutograd decomposes fused in-place ops such as add_(x, alpha=c) and lerp_ into separately
+        rounded primitives, so single-ulp differences exist on the unchanged tree (corrected eigenvalues: 0x1.c36cacp+7 vs 0x1.c36caep+7); equality is
+        asserted up to 64 ulp times the amplification of the amortized computation (conditioning of refreshed factors)."""
+        if case["backend"] == "eager" or not x.dtype.is_floating_point:
+            return rm.bitwise_equal(x, y)
+        if x.shape != y.shape:
+            return False
+        xd, yd = x.double(), y.double()
+        if not bool(torch.isfinite(xd).all() and torch.isfinite(yd).all()):
+            return rm.bitwise_equal(x, y)
+        return float((xd - yd).norm()) <= tol * float(xd.norm() + yd.norm()) + 1e-30
     for si, s in enumerate(case["steps"]):
         ea = A.raw_step(s)
         eb = B.raw_step(s)
@@ -86,8 +102,16 @@ def oracle(case: dict) -> Outcome:
         prev = s["mask"]
         if A.t[0] >= eff["start"]:
             crossed = True
+        if case["backend"] != "eager":
+            from . import c05
+
+            amp = max(amp, c05._amplification(B.opt, B.all_params(), eff))
+            tol = 64 * float(torch.finfo(torch.float32).eps) * (1.0 + amp)
+            if tol > 0.05:
+                out.classes.append("uninformative_ill_conditioned")
+                break
         for pi, (pa, pb) in enumerate(zip(A.all_params(), B.all_params())):
-            if not rm.bitwise_equal(pa.detach(), pb.detach()):
+            if not same(pa.detach(), pb.detach()):
                 out.fail("C18.params", "compiled step leaves different parameters than the eager step",
                          f"step {si + 1} param {pi} max abs diff {(pa.detach().double() - pb.detach().double()).abs().max().item():.3e} backend {case['backend']} mode {case['dyn']}")
                 return out
@@ -96,7 +120,7 @@ def oracle(case: dict) -> Outcome:
                 out.fail("C18.state", "compiled and eager optimizers hold different state keys", f"step {si + 1} param {pi}")
                 return out
             for k in sa:
-                if not rm.bitwise_equal(sa[k], sb[k]):
+                if not same(sa[k], sb[k]):
                     out.fail("C18.state", f"compiled step leaves different state ({k[-2] if len(k) > 1 else k[-1]}) than the eager step", f"step {si + 1} param {pi} path {k}")
                     return out
         out.sub_evaluations += 1
